@@ -28,7 +28,8 @@
 EXTENDS Integers, Sequences, FiniteSets, TLC
 
 CONSTANTS N,            \* number of validators; indices 1..N = order of ValidatorSet.Validators
-          Power,        \* sequence of voting powers
+          PowerAt,      \* PowerAt[h][i] = voting power of validator i in the set of height h (0: not a member);
+                        \* i is the validator's identity (its key), not its position in the set of a height
           ProposerOf,   \* ProposerOf[h][r] = index of the proposer of round r at height h
           InvalidBids,  \* block ids that fail cstate.validateBlock
           SkipTimeoutCommit, \* config.IsSkipTimeoutCommit
@@ -38,10 +39,10 @@ CONSTANTS N,            \* number of validators; indices 1..N = order of Validat
 Idx  == 1..N
 NoB  == "none"     \* no block / no vote
 NilB == "nil"      \* vote for nil
-RECURSIVE SumP(_)
-SumP(S) == IF S = {} THEN 0 ELSE LET i == CHOOSE x \in S : TRUE IN Power[i] + SumP(S \ {i})
-Total == SumP(Idx)
-Two3(p) == 3 * p > 2 * Total          \* strictly more than two thirds (VoteSet.tla: ThresholdsExact)
+RECURSIVE SumP(_, _)
+SumP(h, S) == IF S = {} THEN 0 ELSE LET i == CHOOSE x \in S : TRUE IN PowerAt[h][i] + SumP(h, S \ {i})
+Total(h) == SumP(h, Idx)
+Two3(h, p) == 3 * p > 2 * Total(h)          \* strictly more than two thirds (VoteSet.tla: ThresholdsExact)
 
 \* cstypes.RoundStepType
 NewHeight == 1  NewRound == 2  Propose == 3  Prevote == 4  PrevoteWait == 5
@@ -50,13 +51,13 @@ PrevoteT == 1  PrecommitT == 2       \* kproto.SignedMsgType
 
 (****************************** vote sets ******************************)
 EmptyVS     == [i \in Idx |-> NoB]
-VSum(vs)    == SumP({i \in Idx : vs[i] # NoB})
-VFor(vs, b) == SumP({i \in Idx : vs[i] = b})
+VSum(h, vs)    == SumP(h, {i \in Idx : vs[i] # NoB})
+VFor(h, vs, b) == SumP(h, {i \in Idx : vs[i] = b})
 VBlocks(vs) == {vs[i] : i \in Idx} \ {NoB}
-HasMaj(vs)  == \E b \in VBlocks(vs) : Two3(VFor(vs, b))                 \* HasTwoThirdsMajority
-Maj(vs)     == IF HasMaj(vs) THEN CHOOSE b \in VBlocks(vs) : Two3(VFor(vs, b)) ELSE NoB
-HasAny(vs)  == Two3(VSum(vs))                                            \* HasTwoThirdsAny
-HasAllV(vs) == VSum(vs) = Total
+HasMaj(h, vs)  == \E b \in VBlocks(vs) : Two3(h, VFor(h, vs, b))                 \* HasTwoThirdsMajority
+Maj(h, vs)     == IF HasMaj(h, vs) THEN CHOOSE b \in VBlocks(vs) : Two3(h, VFor(h, vs, b)) ELSE NoB
+HasAny(h, vs)  == Two3(h, VSum(h, vs))                                            \* HasTwoThirdsAny
+HasAllV(h, vs) == VSum(h, vs) = Total(h)
 EmptyRVS    == [pv |-> EmptyVS, pc |-> EmptyVS]
 
 (****************************** node state ******************************)
@@ -79,7 +80,7 @@ SetS(c, s) == [c EXCEPT !.s = s]
 RVS(s, r) == IF r \in s.rounds THEN s.votes[r] ELSE EmptyRVS
 PV(s, r)  == RVS(s, r).pv
 PC(s, r)  == RVS(s, r).pc
-IsVal(s)  == s.me \in Idx
+IsVal(s)  == s.me \in Idx /\ PowerAt[s.h][s.me] > 0
 Proposer(s, r) == ProposerOf[s.h][r]
 
 AddRounds(s, new) ==
@@ -94,7 +95,7 @@ SetRound(s, upto) ==
 IsProposalComplete(s) ==
   /\ s.proposal.has /\ s.pblock # NoB
   /\ \/ s.proposal.pol < 1
-     \/ HasMaj(PV(s, s.proposal.pol))
+     \/ HasMaj(s.h, PV(s, s.proposal.pol))
 
 ScheduleTimeout(c, h, r, step) == Emit(c, [o |-> "timeout", h |-> h, r |-> r, step |-> step])
 
@@ -107,7 +108,7 @@ SignAddVote(c, type, b) ==
 FinalizeCommit(c, h) ==
   LET s == c.s IN
   IF s.h # h \/ s.step # Commit THEN c
-  ELSE LET b == Maj(PC(s, s.commitR)) IN
+  ELSE LET b == Maj(s.h, PC(s, s.commitR)) IN
        IF b \in InvalidBids THEN Emit(c, [o |-> "panic", why |-> "committed invalid block"])
        ELSE
        LET c1 == IF s.storeH < h THEN Emit(c, [o |-> "save", h |-> h, bid |-> b]) ELSE c
@@ -118,7 +119,7 @@ FinalizeCommit(c, h) ==
 
 TryFinalizeCommit(c, h) ==
   LET s == c.s
-      b == Maj(PC(s, s.commitR))
+      b == Maj(s.h, PC(s, s.commitR))
   IN IF b = NoB \/ b = NilB THEN c
      ELSE IF s.pblock # b THEN c
      ELSE FinalizeCommit(c, h)
@@ -126,7 +127,7 @@ TryFinalizeCommit(c, h) ==
 EnterCommit(c, h, cr) ==
   LET s == c.s IN
   IF s.h # h \/ Commit <= s.step THEN c
-  ELSE LET b  == Maj(PC(s, cr))
+  ELSE LET b  == Maj(s.h, PC(s, cr))
            s1 == IF s.lockedB = b /\ b # NoB
                  THEN [s EXCEPT !.pblock = s.lockedB, !.pparts = [has |-> TRUE, bid |-> s.lockedB, done |-> TRUE]] ELSE s
            s2 == IF s1.pblock # b /\ ~(s1.pparts.has /\ s1.pparts.bid = b)
@@ -145,7 +146,7 @@ EnterPrecommit(c, h, r) ==
   IF s.h # h \/ r < s.r \/ (s.r = r /\ Precommit <= s.step) THEN c
   ELSE
     LET pv == PV(s, r)
-        b  == Maj(pv)
+        b  == Maj(h, pv)
         done(cc) == SetS(cc, [cc.s EXCEPT !.r = r, !.step = Precommit])
     IN IF b = NoB THEN done(SignAddVote(c, PrecommitT, NilB))                 \* no polka: precommit nil, keep lock
        ELSE IF b = NilB THEN                                                   \* polka for nil: unlock, precommit nil
@@ -223,7 +224,7 @@ AddProposalBlockPart(c, m) ==
   ELSE IF s.pparts.done \/ m.bid # s.pparts.bid THEN c
   ELSE
     LET s1 == [s EXCEPT !.pparts.done = TRUE, !.pblock = m.bid]
-        b  == Maj(PV(s1, s1.r))
+        b  == Maj(s1.h, PV(s1, s1.r))
         has23 == b # NoB
         s2 == IF has23 /\ b # NilB /\ s1.validR < s1.r /\ s1.pblock = b
               THEN [s1 EXCEPT !.validR = s1.r, !.validB = s1.pblock] ELSE s1
@@ -241,7 +242,7 @@ AddProposalBlockPart(c, m) ==
 AddToVS(vs, v) == IF vs[v.i] = NoB THEN [added |-> TRUE, conflict |-> FALSE, vs |-> [vs EXCEPT ![v.i] = v.bid]]
                   ELSE IF vs[v.i] = v.bid THEN [added |-> FALSE, conflict |-> FALSE, vs |-> vs]
                   ELSE [added |-> FALSE, conflict |-> TRUE,
-                        vs |-> IF Maj(vs) = v.bid THEN [vs EXCEPT ![v.i] = v.bid] ELSE vs]
+                        vs |-> IF Maj(v.h, vs) = v.bid THEN [vs EXCEPT ![v.i] = v.bid] ELSE vs]
 
 \* tryAddVote's reaction to ErrVoteConflictingVotes: evidence unless the vote is our own
 Conflict(c, v, old) ==
@@ -257,7 +258,7 @@ AddVote(c, v, env) ==
           IF res.conflict THEN Conflict(SetS(c, [s EXCEPT !.lastCommit = res.vs]), v, s.lastCommit[v.i])
           ELSE IF ~res.added THEN c
           ELSE LET c1 == SetS(c, [s EXCEPT !.lastCommit = res.vs])
-               IN IF SkipTimeoutCommit /\ HasAllV(res.vs) THEN EnterNewRound(c1, s.h, 1, env) ELSE c1
+               IN IF SkipTimeoutCommit /\ HasAllV(v.h, res.vs) THEN EnterNewRound(c1, s.h, 1, env) ELSE c1
   ELSE IF v.h # s.h THEN c
   ELSE
     LET known  == v.r \in s.rounds
@@ -278,7 +279,7 @@ AddVote(c, v, env) ==
                   h  == s1.h
               IN IF v.type = PrevoteT THEN
                    LET pv == res.vs
-                       b  == Maj(pv)
+                       b  == Maj(h, pv)
                        \* unlock: +2/3 prevotes for something else in a round in (lockedR, current round]
                        s2 == IF b # NoB /\ s1.lockedB # NoB /\ s1.lockedR < v.r /\ v.r <= s1.r /\ s1.lockedB # b
                              THEN [s1 EXCEPT !.lockedR = 0, !.lockedB = NoB] ELSE s1
@@ -290,26 +291,26 @@ AddVote(c, v, env) ==
                                      THEN [t1 EXCEPT !.pparts = [has |-> TRUE, bid |-> b, done |-> FALSE]] ELSE t1
                              ELSE s2
                        c3 == SetS(c, s3)
-                   IN IF s3.r < v.r /\ HasAny(pv) THEN EnterNewRound(c3, h, v.r, env)          \* round skip
+                   IN IF s3.r < v.r /\ HasAny(h, pv) THEN EnterNewRound(c3, h, v.r, env)          \* round skip
                       ELSE IF s3.r = v.r /\ Prevote <= s3.step THEN
                            IF b # NoB /\ (IsProposalComplete(s3) \/ b = NilB) THEN EnterPrecommit(c3, h, v.r)
-                           ELSE IF HasAny(pv) THEN EnterPrevoteWait(c3, h, v.r)
+                           ELSE IF HasAny(h, pv) THEN EnterPrevoteWait(c3, h, v.r)
                            ELSE c3
                       ELSE IF s3.proposal.has /\ 1 <= s3.proposal.pol /\ s3.proposal.pol = v.r THEN
                            IF IsProposalComplete(s3) THEN EnterPrevote(c3, h, s3.r) ELSE c3
                       ELSE c3
                  ELSE
                    LET pc == res.vs
-                       b  == Maj(pc)
+                       b  == Maj(h, pc)
                        c1 == SetS(c, s1)
                    IN IF b # NoB THEN
                         LET c2 == EnterNewRound(c1, h, v.r, env)
                             c3 == EnterPrecommit(c2, h, v.r)
                         IN IF b # NilB THEN
                              LET c4 == EnterCommit(c3, h, v.r)
-                             IN IF SkipTimeoutCommit /\ HasAllV(pc) THEN EnterNewRound(c4, c4.s.h, 1, env) ELSE c4
+                             IN IF SkipTimeoutCommit /\ HasAllV(h, pc) THEN EnterNewRound(c4, c4.s.h, 1, env) ELSE c4
                            ELSE EnterPrecommitWait(c3, h, v.r)
-                      ELSE IF s1.r <= v.r /\ HasAny(pc) THEN
+                      ELSE IF s1.r <= v.r /\ HasAny(h, pc) THEN
                         EnterPrecommitWait(EnterNewRound(c1, h, v.r, env), h, v.r)
                       ELSE c1
 
@@ -331,8 +332,8 @@ HandleTimeout(s, ti, env) ==
 (******************* per-validator obligations (property C03) *******************)
 (* stated over a log `signed` of the node's own signature requests (records as emitted:  *)
 (* o = "vote"/"proposal") and `seen`, the set of valid votes delivered to it so far.      *)
-SeenFor(seen, type, h, r, b) == SumP({i \in Idx : [type |-> type, h |-> h, r |-> r, bid |-> b, i |-> i] \in seen})
-Polka(seen, h, r, b) == Two3(SeenFor(seen, PrevoteT, h, r, b))
+SeenFor(seen, type, h, r, b) == SumP(h, {i \in Idx : [type |-> type, h |-> h, r |-> r, bid |-> b, i |-> i] \in seen})
+Polka(seen, h, r, b) == Two3(h, SeenFor(seen, PrevoteT, h, r, b))
 \* at most one vote of each type and at most one proposal per (height, round)
 OneVotePerTypeHR(signed) ==
   \A k1, k2 \in 1..Len(signed) :
